@@ -4,11 +4,11 @@ package main
 
 import (
 	"fmt"
-	"os"
 	"go/constant"
 	"go/token"
 	"go/types"
 	"math/big"
+	"os"
 	"strings"
 
 	"golang.org/x/tools/go/ssa"
@@ -32,20 +32,20 @@ type Obligation struct {
 }
 
 type Explorer struct {
-	eng     *Engine
-	fn      *ssa.Function
-	con     *Contract
-	fnKey   string
-	work    []*State
-	obls    []*Obligation
-	fresh   int
-	nextRef int
-	notes   map[string]int
-	unmod   map[string]int // unmodelled calls
-	assumed map[string]int // assumed (trusted / interface) contracts used
-	paths   int
-	errs    []string
-	inlined map[string]int
+	eng       *Engine
+	fn        *ssa.Function
+	con       *Contract
+	fnKey     string
+	work      []*State
+	obls      []*Obligation
+	fresh     int
+	nextRef   int
+	notes     map[string]int
+	unmod     map[string]int // unmodelled calls
+	assumed   map[string]int // assumed (trusted / interface) contracts used
+	paths     int
+	errs      []string
+	inlined   map[string]int
 	forkCount map[string]int
 }
 
@@ -494,11 +494,11 @@ func (x *Explorer) jump(st *State, f *Frame, to *ssa.BasicBlock) {
 					env := x.specEnv(st, f, f.contract)
 					for _, cl := range cls {
 						if !st.dry {
-							env.goal = true
-							x.emit(st, "after-loop", cl.Label, fmt.Sprintf("loop#%d", al.info.Ord), env.evalBool(cl.Expr), cl.Where)
+							if g, ok := x.goalOf(st, env, cl, "after-loop", fmt.Sprintf("loop#%d", al.info.Ord)); ok {
+								x.emit(st, "after-loop", cl.Label, fmt.Sprintf("loop#%d", al.info.Ord), g, cl.Where)
+							}
 						}
-						env.goal = false
-						st.assume(env.evalBool(cl.Expr))
+						x.assumeClause(st, env, cl)
 					}
 				}
 			}
